@@ -349,6 +349,23 @@ def chk_borrowed(il, txt):
 ALL = 'tok,arena,ev,api,lk,it,tp'
 
 PROPS = collections.OrderedDict()
+def obs_with_rejects(fn, kinds):
+    """a projection compared when both sides accept; plus a disagreement about acceptance in which the
+    rejecting side gives one of the error kinds that belong to this property"""
+    def f(di, dm, il, ml):
+        if di.ok and dm.ok:
+            return (True, fn(di)), (True, fn(dm))
+        ki, km = res_kind(res_line(il)), res_kind(res_line(ml))
+        if dm.ok and ki in kinds:
+            return ('rejected', ki), ('accepted',)
+        if di.ok and km in kinds:
+            return ('accepted',), ('rejected', km)
+        return None, None
+    return f
+
+TEXT_ERRORS = ('err:MalformedEntityReference', 'err:UnknownEntityReference', 'err:InvalidCharacterData', 'err:NonXmlChar')
+ATTR_ERRORS = ('err:MalformedEntityReference', 'err:UnknownEntityReference', 'err:InvalidAttributeValue', 'err:DuplicatedAttribute', 'err:NonXmlChar')
+
 def chk_itx(il, txt):
     """the navigation API of the returned Document is consistent with itself (harness, `it` section):
     descendants() = children() walk, forward = backward, drained iterators stay drained, text()/tail()
@@ -431,10 +448,10 @@ PROPS['C03'] = P_('markup mirrors the logical structure', 'tok,arena,it', plan(G
                   observable=obs_reject_wellformed(lambda d: d.markup()), internal=[('TK', tok_strings), ('TKRES', res_kind_only)], special='markup')
 PROPS['C04'] = P_('character data decoding', 'arena,ev,it',
                   plan(G_COMMON_QUICK[:2] + [['pieces-text', 2], ['cdatalines', 4], ['lexedge', 1]], G_COMMON_THOROUGH[:3] + [['pieces-text', 4], ['cdatalines', 5], ['lexedge', 1]]),
-                  observable=mk_obs(lambda d: d.texts()), impl_checks=[chk_itx], internal=[('EV F', strip_storage)], special='pieces_text', requires=['markup'])
+                  observable=obs_with_rejects(lambda d: d.texts(), TEXT_ERRORS), impl_checks=[chk_itx], internal=[('EV F', strip_storage)], special='pieces_text', requires=['markup'])
 PROPS['C05'] = P_('attributes', 'arena,ev,it',
                   plan(G_COMMON_QUICK[:2] + [['pieces-attr', 2], ['lexedge', 1], ['manyattrs', 1]], G_COMMON_THOROUGH[:3] + [['pieces-attr', 4], ['lexedge', 1], ['manyattrs', 1]]),
-                  observable=mk_obs(lambda d: d.attributes()), impl_checks=[chk_itx], internal=[('EV V', strip_storage)], special='pieces_attr', requires=['markup'])
+                  observable=obs_with_rejects(lambda d: d.attributes(), ATTR_ERRORS), impl_checks=[chk_itx], internal=[('EV V', strip_storage)], special='pieces_attr', requires=['markup'])
 NS_ERRORS = ('err:UnknownNamespace', 'err:DuplicatedNamespace', 'err:UnexpectedXmlUri', 'err:UnexpectedXmlnsUri',
              'err:InvalidXmlPrefixUri', 'err:InvalidElementNamePrefix', 'err:NamespacesLimitReached')
 
